@@ -7,8 +7,9 @@
 -/
 import CC.Gen.Kernels
 import CC.JH.Model
+import CC.Lemmas.SrcGlue
 namespace CC.Src
-open CC.Simd CC.JH.Model
+open CC CC.Simd CC.Buffer CC.JH.Model
 
 /-- `X8(..)` from its eight components -/
 def x8Of (t : BitVec 128 × BitVec 128 × BitVec 128 × BitVec 128 × BitVec 128 × BitVec 128 × BitVec 128 × BitVec 128) :
@@ -48,5 +49,239 @@ theorem src_jh_define_hasher :
     h0Bytes 224 = CC.toBeBytes Gen.Kernels.jh_JH224_H0 128 ∧ h0Bytes 256 = CC.toBeBytes Gen.Kernels.jh_JH256_H0 128 ∧
     h0Bytes 384 = CC.toBeBytes Gen.Kernels.jh_JH384_H0 128 ∧ h0Bytes 512 = CC.toBeBytes Gen.Kernels.jh_JH512_H0 128 :=
   ⟨rfl, by decide +kernel, by decide +kernel, by decide +kernel, by decide +kernel⟩
+
+
+/-! ## phase 3: the glue of lib.rs (`define_hasher!`), the four instantiations (tools/inventory_kernels_glue.py)
+
+  `Default::default`, `Update::update`, `FixedOutputDirty::finalize_into_dirty`, `Reset::reset`, regenerated from the
+  source on every run.  The `block_buffer::BlockBuffer` methods are named primitives mapped to `CC.Buffer`
+  (`inputBlock`, `len64PaddingBe`, `padWithIso7816`); `Compressor::new` / `input` / `finalize` (compressor.rs) are
+  parameters of the generated definitions, instantiated here with the model's functions.  `datalen: usize` ↦ `Nat`
+  below 2^64.  Panic messages are not compared (`noMsg`). -/
+
+/-- the fields of the Rust `Jh*` struct -/
+def jhEnc (h : Hasher) : Compressor × BB × Nat := (h.state, h.buffer, h.datalen)
+
+/-- `Compressor::new(bytes)` on the table as the translator renders it (the big-endian reading of the hex string) -/
+def jhNew (t : BitVec 1024) : Compressor := Compressor.new (toBeBytes t 128)
+
+theorem toBe64_eq' (x : BitVec 64) : toBeBytes x 8 = toBe64 x := by
+  simp only [toBe64, toLe64, toBeBytes, toLeBytes, List.range, List.range.loop, List.map, List.reverse_cons,
+    List.reverse_nil, List.nil_append, List.cons_append, List.cons.injEq, and_true]
+  refine ⟨?_, ?_, ?_, ?_, ?_, ?_, ?_, ?_⟩ <;> bv_decide
+
+theorem src_jh_default_224 : jhEnc (Hasher.new 224) = Gen.Kernels.jh_default_224 jhNew := by
+  simp only [jhEnc, Hasher.new, Gen.Kernels.jh_default_224, jhNew, src_jh_define_hasher.2.1]
+
+theorem src_jh_update_224 (M : Mach) (p : Profile) (h : Hasher) (data : List (BitVec 8)) :
+    noMsg (Gen.Kernels.jh_update_224 (Compressor.input M) p h.state h.buffer h.datalen data)
+      = noMsg (h.update M p data >>= fun h' => .ok (jhEnc h')) := by
+  unfold Gen.Kernels.jh_update_224 Hasher.update Gen.Kernels.jh_update_224_closure1 Gen.Kernels.usizeAdd
+  by_cases hs : h.datalen + data.length < 18446744073709551616
+  · have : ¬ (h.datalen + data.length ≥ 2 ^ 64) := by omega
+    simp [hs, this, jhEnc, noMsg]
+  · have : h.datalen + data.length ≥ 2 ^ 64 := by omega
+    cases p <;> simp [hs, this, jhEnc, noMsg, bind_panic]
+
+theorem src_jh_finalize_into_dirty_224 (M : Mach) (p : Profile) (h : Hasher) (hn : h.n = 224) (hd : h.datalen < 2 ^ 64)
+    (out : List (BitVec 8)) :
+    noMsg (Gen.Kernels.jh_finalize_into_dirty_224 (Compressor.input M) Compressor.finalize p h.state h.buffer h.datalen out)
+      = noMsg (h.finalizeDirty M p >>= fun r => .ok (r.1.state, r.1.buffer, r.1.datalen, r.2)) := by
+  unfold Gen.Kernels.jh_finalize_into_dirty_224 Hasher.finalizeDirty Gen.Kernels.jh_finalize_into_dirty_224_closure1
+  have e1 : (BitVec.ofNat 64 h.datalen).toNat = h.datalen := by
+    rw [BitVec.toNat_ofNat]; exact Nat.mod_eq_of_lt hd
+  have e2 : BitVec.ofNat 64 h.datalen * 8#64 = BitVec.ofNat 64 (h.datalen * 8) := by
+    rw [BitVec.ofNat_mul]
+  have e3 : (8#64).toNat = 8 := rfl
+  have e4 : List.take 56 (List.replicate 64 (0#8 : BitVec 8)) = List.replicate 56 0#8 := by decide
+  simp only [e1, e2, e3, e4, hn, toBe64_eq']
+  by_cases hov : h.datalen * 8 < 2 ^ 64
+  · have : ¬ (h.datalen * 8 ≥ 2 ^ 64) := by omega
+    simp only [hov, this, decide_true, Bool.true_eq_false, and_false, if_false]
+    by_cases hp : h.buffer.pos = 0
+    · simp [hp, noMsg]
+    · have hp' : (h.buffer.pos == 0) = false := by simpa using hp
+      simp only [hp', hp, Bool.false_eq_true, if_false, true_and]
+      cases hq : padWithIso7816 64 h.buffer with
+      | none => simp [noMsg, bind_panic]
+      | some bb => obtain ⟨buf, blk⟩ := bb; simp [noMsg]
+  · have : h.datalen * 8 ≥ 2 ^ 64 := by omega
+    cases p
+    · simp [hov, this, noMsg, bind_panic]
+    · simp only [reduceCtorEq, false_and, if_false]
+      by_cases hp : h.buffer.pos = 0
+      · simp [hp, noMsg]
+      · have hp' : (h.buffer.pos == 0) = false := by simpa using hp
+        simp only [hp', hp, Bool.false_eq_true, if_false, true_and]
+        cases hq : padWithIso7816 64 h.buffer with
+        | none => simp [noMsg, bind_panic]
+        | some bb => obtain ⟨buf, blk⟩ := bb; simp [noMsg]
+
+theorem src_jh_reset_224 (h : Hasher) (hn : h.n = 224) :
+    jhEnc h.reset = Gen.Kernels.jh_reset_224 jhNew h.state h.buffer h.datalen := by
+  simp only [Hasher.reset, hn, Gen.Kernels.jh_reset_224, ← src_jh_default_224]
+
+theorem src_jh_default_256 : jhEnc (Hasher.new 256) = Gen.Kernels.jh_default_256 jhNew := by
+  simp only [jhEnc, Hasher.new, Gen.Kernels.jh_default_256, jhNew, src_jh_define_hasher.2.2.1]
+
+theorem src_jh_update_256 (M : Mach) (p : Profile) (h : Hasher) (data : List (BitVec 8)) :
+    noMsg (Gen.Kernels.jh_update_256 (Compressor.input M) p h.state h.buffer h.datalen data)
+      = noMsg (h.update M p data >>= fun h' => .ok (jhEnc h')) := by
+  unfold Gen.Kernels.jh_update_256 Hasher.update Gen.Kernels.jh_update_256_closure1 Gen.Kernels.usizeAdd
+  by_cases hs : h.datalen + data.length < 18446744073709551616
+  · have : ¬ (h.datalen + data.length ≥ 2 ^ 64) := by omega
+    simp [hs, this, jhEnc, noMsg]
+  · have : h.datalen + data.length ≥ 2 ^ 64 := by omega
+    cases p <;> simp [hs, this, jhEnc, noMsg, bind_panic]
+
+theorem src_jh_finalize_into_dirty_256 (M : Mach) (p : Profile) (h : Hasher) (hn : h.n = 256) (hd : h.datalen < 2 ^ 64)
+    (out : List (BitVec 8)) :
+    noMsg (Gen.Kernels.jh_finalize_into_dirty_256 (Compressor.input M) Compressor.finalize p h.state h.buffer h.datalen out)
+      = noMsg (h.finalizeDirty M p >>= fun r => .ok (r.1.state, r.1.buffer, r.1.datalen, r.2)) := by
+  unfold Gen.Kernels.jh_finalize_into_dirty_256 Hasher.finalizeDirty Gen.Kernels.jh_finalize_into_dirty_256_closure1
+  have e1 : (BitVec.ofNat 64 h.datalen).toNat = h.datalen := by
+    rw [BitVec.toNat_ofNat]; exact Nat.mod_eq_of_lt hd
+  have e2 : BitVec.ofNat 64 h.datalen * 8#64 = BitVec.ofNat 64 (h.datalen * 8) := by
+    rw [BitVec.ofNat_mul]
+  have e3 : (8#64).toNat = 8 := rfl
+  have e4 : List.take 56 (List.replicate 64 (0#8 : BitVec 8)) = List.replicate 56 0#8 := by decide
+  simp only [e1, e2, e3, e4, hn, toBe64_eq']
+  by_cases hov : h.datalen * 8 < 2 ^ 64
+  · have : ¬ (h.datalen * 8 ≥ 2 ^ 64) := by omega
+    simp only [hov, this, decide_true, Bool.true_eq_false, and_false, if_false]
+    by_cases hp : h.buffer.pos = 0
+    · simp [hp, noMsg]
+    · have hp' : (h.buffer.pos == 0) = false := by simpa using hp
+      simp only [hp', hp, Bool.false_eq_true, if_false, true_and]
+      cases hq : padWithIso7816 64 h.buffer with
+      | none => simp [noMsg, bind_panic]
+      | some bb => obtain ⟨buf, blk⟩ := bb; simp [noMsg]
+  · have : h.datalen * 8 ≥ 2 ^ 64 := by omega
+    cases p
+    · simp [hov, this, noMsg, bind_panic]
+    · simp only [reduceCtorEq, false_and, if_false]
+      by_cases hp : h.buffer.pos = 0
+      · simp [hp, noMsg]
+      · have hp' : (h.buffer.pos == 0) = false := by simpa using hp
+        simp only [hp', hp, Bool.false_eq_true, if_false, true_and]
+        cases hq : padWithIso7816 64 h.buffer with
+        | none => simp [noMsg, bind_panic]
+        | some bb => obtain ⟨buf, blk⟩ := bb; simp [noMsg]
+
+theorem src_jh_reset_256 (h : Hasher) (hn : h.n = 256) :
+    jhEnc h.reset = Gen.Kernels.jh_reset_256 jhNew h.state h.buffer h.datalen := by
+  simp only [Hasher.reset, hn, Gen.Kernels.jh_reset_256, ← src_jh_default_256]
+
+theorem src_jh_default_384 : jhEnc (Hasher.new 384) = Gen.Kernels.jh_default_384 jhNew := by
+  simp only [jhEnc, Hasher.new, Gen.Kernels.jh_default_384, jhNew, src_jh_define_hasher.2.2.2.1]
+
+theorem src_jh_update_384 (M : Mach) (p : Profile) (h : Hasher) (data : List (BitVec 8)) :
+    noMsg (Gen.Kernels.jh_update_384 (Compressor.input M) p h.state h.buffer h.datalen data)
+      = noMsg (h.update M p data >>= fun h' => .ok (jhEnc h')) := by
+  unfold Gen.Kernels.jh_update_384 Hasher.update Gen.Kernels.jh_update_384_closure1 Gen.Kernels.usizeAdd
+  by_cases hs : h.datalen + data.length < 18446744073709551616
+  · have : ¬ (h.datalen + data.length ≥ 2 ^ 64) := by omega
+    simp [hs, this, jhEnc, noMsg]
+  · have : h.datalen + data.length ≥ 2 ^ 64 := by omega
+    cases p <;> simp [hs, this, jhEnc, noMsg, bind_panic]
+
+theorem src_jh_finalize_into_dirty_384 (M : Mach) (p : Profile) (h : Hasher) (hn : h.n = 384) (hd : h.datalen < 2 ^ 64)
+    (out : List (BitVec 8)) :
+    noMsg (Gen.Kernels.jh_finalize_into_dirty_384 (Compressor.input M) Compressor.finalize p h.state h.buffer h.datalen out)
+      = noMsg (h.finalizeDirty M p >>= fun r => .ok (r.1.state, r.1.buffer, r.1.datalen, r.2)) := by
+  unfold Gen.Kernels.jh_finalize_into_dirty_384 Hasher.finalizeDirty Gen.Kernels.jh_finalize_into_dirty_384_closure1
+  have e1 : (BitVec.ofNat 64 h.datalen).toNat = h.datalen := by
+    rw [BitVec.toNat_ofNat]; exact Nat.mod_eq_of_lt hd
+  have e2 : BitVec.ofNat 64 h.datalen * 8#64 = BitVec.ofNat 64 (h.datalen * 8) := by
+    rw [BitVec.ofNat_mul]
+  have e3 : (8#64).toNat = 8 := rfl
+  have e4 : List.take 56 (List.replicate 64 (0#8 : BitVec 8)) = List.replicate 56 0#8 := by decide
+  simp only [e1, e2, e3, e4, hn, toBe64_eq']
+  by_cases hov : h.datalen * 8 < 2 ^ 64
+  · have : ¬ (h.datalen * 8 ≥ 2 ^ 64) := by omega
+    simp only [hov, this, decide_true, Bool.true_eq_false, and_false, if_false]
+    by_cases hp : h.buffer.pos = 0
+    · simp [hp, noMsg]
+    · have hp' : (h.buffer.pos == 0) = false := by simpa using hp
+      simp only [hp', hp, Bool.false_eq_true, if_false, true_and]
+      cases hq : padWithIso7816 64 h.buffer with
+      | none => simp [noMsg, bind_panic]
+      | some bb => obtain ⟨buf, blk⟩ := bb; simp [noMsg]
+  · have : h.datalen * 8 ≥ 2 ^ 64 := by omega
+    cases p
+    · simp [hov, this, noMsg, bind_panic]
+    · simp only [reduceCtorEq, false_and, if_false]
+      by_cases hp : h.buffer.pos = 0
+      · simp [hp, noMsg]
+      · have hp' : (h.buffer.pos == 0) = false := by simpa using hp
+        simp only [hp', hp, Bool.false_eq_true, if_false, true_and]
+        cases hq : padWithIso7816 64 h.buffer with
+        | none => simp [noMsg, bind_panic]
+        | some bb => obtain ⟨buf, blk⟩ := bb; simp [noMsg]
+
+theorem src_jh_reset_384 (h : Hasher) (hn : h.n = 384) :
+    jhEnc h.reset = Gen.Kernels.jh_reset_384 jhNew h.state h.buffer h.datalen := by
+  simp only [Hasher.reset, hn, Gen.Kernels.jh_reset_384, ← src_jh_default_384]
+
+theorem src_jh_default_512 : jhEnc (Hasher.new 512) = Gen.Kernels.jh_default_512 jhNew := by
+  simp only [jhEnc, Hasher.new, Gen.Kernels.jh_default_512, jhNew, src_jh_define_hasher.2.2.2.2]
+
+theorem src_jh_update_512 (M : Mach) (p : Profile) (h : Hasher) (data : List (BitVec 8)) :
+    noMsg (Gen.Kernels.jh_update_512 (Compressor.input M) p h.state h.buffer h.datalen data)
+      = noMsg (h.update M p data >>= fun h' => .ok (jhEnc h')) := by
+  unfold Gen.Kernels.jh_update_512 Hasher.update Gen.Kernels.jh_update_512_closure1 Gen.Kernels.usizeAdd
+  by_cases hs : h.datalen + data.length < 18446744073709551616
+  · have : ¬ (h.datalen + data.length ≥ 2 ^ 64) := by omega
+    simp [hs, this, jhEnc, noMsg]
+  · have : h.datalen + data.length ≥ 2 ^ 64 := by omega
+    cases p <;> simp [hs, this, jhEnc, noMsg, bind_panic]
+
+theorem src_jh_finalize_into_dirty_512 (M : Mach) (p : Profile) (h : Hasher) (hn : h.n = 512) (hd : h.datalen < 2 ^ 64)
+    (out : List (BitVec 8)) :
+    noMsg (Gen.Kernels.jh_finalize_into_dirty_512 (Compressor.input M) Compressor.finalize p h.state h.buffer h.datalen out)
+      = noMsg (h.finalizeDirty M p >>= fun r => .ok (r.1.state, r.1.buffer, r.1.datalen, r.2)) := by
+  unfold Gen.Kernels.jh_finalize_into_dirty_512 Hasher.finalizeDirty Gen.Kernels.jh_finalize_into_dirty_512_closure1
+  have e1 : (BitVec.ofNat 64 h.datalen).toNat = h.datalen := by
+    rw [BitVec.toNat_ofNat]; exact Nat.mod_eq_of_lt hd
+  have e2 : BitVec.ofNat 64 h.datalen * 8#64 = BitVec.ofNat 64 (h.datalen * 8) := by
+    rw [BitVec.ofNat_mul]
+  have e3 : (8#64).toNat = 8 := rfl
+  have e4 : List.take 56 (List.replicate 64 (0#8 : BitVec 8)) = List.replicate 56 0#8 := by decide
+  simp only [e1, e2, e3, e4, hn, toBe64_eq']
+  by_cases hov : h.datalen * 8 < 2 ^ 64
+  · have : ¬ (h.datalen * 8 ≥ 2 ^ 64) := by omega
+    simp only [hov, this, decide_true, Bool.true_eq_false, and_false, if_false]
+    by_cases hp : h.buffer.pos = 0
+    · simp [hp, noMsg]
+    · have hp' : (h.buffer.pos == 0) = false := by simpa using hp
+      simp only [hp', hp, Bool.false_eq_true, if_false, true_and]
+      cases hq : padWithIso7816 64 h.buffer with
+      | none => simp [noMsg, bind_panic]
+      | some bb => obtain ⟨buf, blk⟩ := bb; simp [noMsg]
+  · have : h.datalen * 8 ≥ 2 ^ 64 := by omega
+    cases p
+    · simp [hov, this, noMsg, bind_panic]
+    · simp only [reduceCtorEq, false_and, if_false]
+      by_cases hp : h.buffer.pos = 0
+      · simp [hp, noMsg]
+      · have hp' : (h.buffer.pos == 0) = false := by simpa using hp
+        simp only [hp', hp, Bool.false_eq_true, if_false, true_and]
+        cases hq : padWithIso7816 64 h.buffer with
+        | none => simp [noMsg, bind_panic]
+        | some bb => obtain ⟨buf, blk⟩ := bb; simp [noMsg]
+
+theorem src_jh_reset_512 (h : Hasher) (hn : h.n = 512) :
+    jhEnc h.reset = Gen.Kernels.jh_reset_512 jhNew h.state h.buffer h.datalen := by
+  simp only [Hasher.reset, hn, Gen.Kernels.jh_reset_512, ← src_jh_default_512]
+
+/-- the hasher structs (model `Hasher`: state, buffer, datalen; `n` is the type) and `Compressor` (model `Compressor`: cv):
+    `Clone` is derived (field-wise copy), `Default` is the hand-written impl translated above -/
+theorem src_jh_structs :
+    Gen.Kernels.jh_structs =
+      [("Jh224", "struct", ["state", "buffer", "datalen"], ["Clone"], ["Default"]),
+       ("Jh256", "struct", ["state", "buffer", "datalen"], ["Clone"], ["Default"]),
+       ("Jh384", "struct", ["state", "buffer", "datalen"], ["Clone"], ["Default"]),
+       ("Jh512", "struct", ["state", "buffer", "datalen"], ["Clone"], ["Default"]),
+       ("Compressor", "struct", ["cv"], ["Clone", "Copy"], [])] := rfl
 
 end CC.Src
